@@ -129,8 +129,12 @@ ezc3d::DataNS::Frame &ezc3d::DataNS::Data::frame_nonConst(size_t idx)
 
 void ezc3d::DataNS::Data::frame(const ezc3d::DataNS::Frame &frame, size_t idx)
 {
-    if (idx == SIZE_MAX)
-        _frames.push_back(frame);
+    if (idx == SIZE_MAX){
+        // Store a deep copy so the new frame shares nothing with the caller's frame
+        ezc3d::DataNS::Frame copy;
+        copy.add(frame);
+        _frames.push_back(copy);
+    }
     else {
         if (idx >= _frames.size())
             _frames.resize(idx+1);
